@@ -268,7 +268,7 @@ def monitors(cfg, trace_seg_all, labels, end):
     # C04 / C05 on real function-body intervals
     live = set()
     for e in trace_seg_all:
-        if e[0] == "ENTER":
+        if e[0] == "XENTER":
             n = e[1]
             r = cfg["res"].get(n)
             if r != "main-thread":
@@ -285,7 +285,7 @@ def monitors(cfg, trace_seg_all, labels, end):
                 errs.append(("C05", "sequential node %s entered while %s running" % (n, others)))
             if any(cfg["seq"].get(x) for x in others):
                 errs.append(("C05", "node %s entered while sequential node(s) %s running" % (n, [x for x in others if cfg["seq"].get(x)])))
-        elif e[0] == "EXIT":
+        elif e[0] == "XEXIT":
             live.discard(e[1])
     # C04 at submission time: handed out and not yet observed done
     infl = set()
